@@ -603,6 +603,31 @@ func Run1(t *testing.T, c Case) (res Result) {
 			e.single(t, false, nil, rtxOp(pager.RTx{Mods: []uint32{2}, NewSize: ns, Final: fin, Outcome: "commit"}))
 		case "H4-multi-segment":
 			e.single(t, false, nil, rtxOp(pager.RTx{Mods: []uint32{2, 3, s}, SpillAfter: []int{1, 2}, NewSize: s + 1, Final: fin, Outcome: "commit"}))
+		case "H4b-segment-ends-on-sector-boundary":
+			// the first journal segment holds exactly 64 records (a multiple of the sector size for every page size), the
+			// second one the rest: the reader has to find the second header right at the end of the first segment
+			e.single(t, false, func(n *lab.Node, a *pager.Conn, img *oracle.Image) *oracle.Image {
+				r := a.RunRTx(pager.RTx{NewSize: 70, Final: "DELETE", Outcome: "commit"}, img)
+				if r.Err != nil || !r.Committed {
+					e.res.Harness = fmt.Sprintf("prep grow: %v at %s", r.Err, r.ErrStep)
+					return nil
+				}
+				// one more small transaction: start-up re-applies the newest transaction file, which must not happen to
+				// contain the pages this history is about
+				r = a.RunRTx(pager.RTx{Mods: []uint32{2}, Final: "DELETE", Outcome: "commit"}, r.Intended)
+				if r.Err != nil || !r.Committed {
+					e.res.Harness = fmt.Sprintf("prep tx: %v at %s", r.Err, r.ErrStep)
+					return nil
+				}
+				return r.Intended
+			}, func(n *lab.Node, col *collector, a *pager.Conn, img *oracle.Image) (*oracle.Image, error) {
+				var mods []uint32
+				for p := uint32(2); p <= 67; p++ {
+					mods = append(mods, p)
+				}
+				// page 1 is journalled last by the simulator: 63 pages + ... keep 64 records in the first segment
+				return rtxOp(pager.RTx{Mods: mods, SpillAfter: []int{64}, Final: fin, Outcome: "commit"})(n, col, a, img)
+			})
 		case "H5-rollback-after-spill":
 			e.single(t, false, nil, func(n *lab.Node, col *collector, a *pager.Conn, img *oracle.Image) (*oracle.Image, error) {
 				r := a.RunRTx(pager.RTx{Mods: []uint32{2, s}, SpillAfter: []int{1}, Final: fin, Outcome: "rollback"}, img)
@@ -920,7 +945,7 @@ func RunAll(run *vlib.Run, only func(h string) bool) map[string]any {
 		name     string
 		variants int
 	}{
-		{"H1-first-tx", 6}, {"H2-grow", 3}, {"H3-shrink", 3}, {"H4-multi-segment", 3}, {"H5-rollback-after-spill", 3},
+		{"H1-first-tx", 6}, {"H2-grow", 3}, {"H3-shrink", 3}, {"H4-multi-segment", 3}, {"H4b-segment-ends-on-sector-boundary", 1}, {"H5-rollback-after-spill", 3},
 		{"H6-wal-fresh", 3}, {"H7-wal-after-restart", 2}, {"H7b-wal-second-tx", 2}, {"H8-sqlite-checkpoint", 4}, {"H8b-wal-tx-after-checkpoint", 2}, {"H9-litefs-recover", 2},
 		{"H12-drop", 6}, {"H14-import", 4}, {"H10-replica-incremental", 2}, {"H10w-replica-incremental-wal", 2}, {"H11-replica-snapshot", 2}, {"H11b-replica-resnapshot", 2}, {"H11c-replica-fork-resnapshot", 4}, {"H15-restore-from-backup", 2}, {"H13-replica-tombstone", 2},
 	}
